@@ -38,7 +38,9 @@ SHARD = 25
 NQ_CHOICES = [1, 1, 2, 2, 2, 3, 3]
 RULE = ("scenarios of 1-3 EventQueue instances in one process with interleaved ops, events shared between queues, "
         "caller-owned lists checked and trashed, JSON via string/file/buffer, numpy/float/huge timestamps, the queue "
-        "property, a sample re-run in a second process with another PYTHONHASHSEED; every list returned by "
+        "property, a sample re-run in a second process with another PYTHONHASHSEED; precedence/event_type customised "
+        "on a share of the instances; plug-in/unplug events of one session sharing one EV object, often at one "
+        "timestamp, in either insertion order; every list returned by "
         "get_current_events is held and re-read after every later op and at the end; clobber steps mutate returned "
         "lists; random op sequences (<=200 ops quick, <=2000 thorough) over EventQueue(events)/add_event/add_events/"
         "get_event/get_current_events(t)/len/empty/get_last_timestamp/to_json+from_json, generated while "
@@ -48,7 +50,8 @@ RULE = ("scenarios of 1-3 EventQueue instances in one process with interleaved o
 ASSUMPTIONS = ["timestamps and precedences are integers (the three shipped event classes); CPython's heapq "
                "(C accelerator) behaves as Lib/heapq.py — re-implemented line by line and compared on every case, "
                "including the identity of each popped event and the raw heap array"]
-TRUSTED_EXTRA = ["tools/gen_events.py (reads the precedence/event_type literals assigned in the event constructors)"]
+TRUSTED_EXTRA = ["tools/gen_events.py (reads the precedence/event_type literals assigned in the event constructors; "
+                 "refuses when an event class defines __eq__ or a subclass overrides __lt__)"]
 
 KINDS = ["Unplug", "Plugin", "Recompute"]          # rank in the property text: unplug, plug-in, recompute
 KCOQ = {"Unplug": "KUnplug", "Plugin": "KPlugin", "Recompute": "KRecompute"}
@@ -64,7 +67,8 @@ CUSTOM_TYPES = ["Maintenance", "", "Plugin "]
 
 def _extras(t):
     """optional trailing elements of an event triple [ts, kind, vid, ...]: a number-type tag (str) and a
-    customisation {"p": precedence set on the instance, "ty": event_type set on the instance}"""
+    customisation {"p": precedence set on the instance, "ty": event_type set on the instance,
+    "ev": key of the EV object (charging session) that this plug-in / unplug event refers to}"""
     dt, custom = None, {}
     for x in t[3:]:
         if isinstance(x, dict):
@@ -88,7 +92,8 @@ BADP = 999983                                       # stands for a precedence th
 # ---------------------------------------------------------------------------------------------
 # running the real implementation
 # ---------------------------------------------------------------------------------------------
-def _mk_event(ts, kind, vid, dt=None, custom=None):
+def _mk_event(ts, kind, vid, dt=None, custom=None, pool=None):
+    ts0 = ts
     ts = _conv(ts, dt)
     from acnportal.acnsim.events import Event, PluginEvent, UnplugEvent, RecomputeEvent
     from acnportal.acnsim.models import EV, Battery
@@ -97,7 +102,15 @@ def _mk_event(ts, kind, vid, dt=None, custom=None):
     elif kind == "Base":                # the base class; its default precedence is inf, so it is always customised
         e = Event(ts)
     else:
-        ev = EV(ts, ts + 5, 10, "S%d" % (vid % 7), "sess%d" % vid, Battery(50, 0, 7))
+        if custom and "ev" in custom and pool is not None:
+            # the plug-in and the unplug event of one charging session share their EV object, as in the
+            # simulator (Simulator._process_event queues UnplugEvent(ev.departure, ev) for a plugged-in ev)
+            key = ("ev", custom["ev"])
+            if key not in pool:
+                pool[key] = EV(ts0, ts0 + 5, 10, "SE%d" % (custom["ev"] % 7), "sessE%d" % custom["ev"], Battery(50, 0, 7))
+            ev = pool[key]
+        else:
+            ev = EV(ts, ts + 5, 10, "S%d" % (vid % 7), "sess%d" % vid, Battery(50, 0, 7))
         e = PluginEvent(ts, ev) if kind == "Plugin" else UnplugEvent(ts, ev)
     # the caller customises the public attributes of this instance before queueing it
     if custom and "p" in custom:
@@ -184,7 +197,7 @@ class Runner:
         if vid not in objs:
             e = self.pool.get(vid)
             if e is None:
-                e = _mk_event(ts, kind, vid, *_extras(triple))
+                e = _mk_event(ts, kind, vid, *_extras(triple), pool=self.pool)
                 self.pool[vid] = e
             objs[vid] = e
             if not twin and self.twin is not None and vid not in self.twin_objs:
@@ -521,6 +534,8 @@ class QGen:
         self.dt = dt              # None | "np" | "float" | "mixed": number type the caller uses
         self.others = []          # the generators of the other queues of the scenario
         self.custom = False       # the caller customises precedence / event_type on a share of the instances
+        self.sessions = False     # plug-in / unplug events come in pairs that share one EV object
+        self.known = {}           # vid -> triple of every event this generator has produced
         self.pending = {}
         for t in (init or []):
             self.pending[t[2]] = t
@@ -537,14 +552,31 @@ class QGen:
         d = self.pick_dt()
         kind = rng.choice(KINDS)
         c = {}
+        if self.sessions:
+            # plug-in and unplug events of ONE session (one EV object), often at the same timestamp
+            # (a stay of zero periods), in either insertion order
+            partners = [t for g in [self] + self.others for t in g.pending.values()
+                        if t[1] in ("Plugin", "Unplug") and "ev" in _extras(t)[1]]
+            if partners and rng.random() < 0.45:
+                t0 = rng.choice(sorted(partners, key=lambda t: t[2]))
+                kind = "Unplug" if t0[1] == "Plugin" else "Plugin"
+                if rng.random() < 0.2:
+                    kind = t0[1]
+                if rng.random() < 0.7:
+                    ts = t0[0]
+                c["ev"] = _extras(t0)[1]["ev"]
+            elif kind in ("Plugin", "Unplug"):
+                c["ev"] = vid
         if self.custom and rng.random() < 0.4:
             if rng.random() < 0.8:
                 c["p"] = rng.choice(CUSTOM_PRECS)
             if rng.random() < 0.4:
                 c["ty"] = rng.choice(CUSTOM_TYPES)
-            if rng.random() < 0.1:
+            if rng.random() < 0.1 and "ev" not in c:
                 kind, c["p"] = "Base", c.get("p", rng.choice(CUSTOM_PRECS))
-        return [ts, kind, vid] + ([d] if d else []) + ([c] if c else [])
+        t = [ts, kind, vid] + ([d] if d else []) + ([c] if c else [])
+        self.known[vid] = t
+        return t
 
     def pick_dt(self):
         if self.dt == "mixed":
@@ -612,6 +644,7 @@ def gen_one(rng, maxlen, profile=None, nq=None):
     n = rng.randint(1, maxlen) if profile != "tiny" else rng.randint(0, 8)
     dt = rng.choice([None] * 15 + ["np", "np", "float", "mixed", "mixed"])
     custom = rng.random() < 0.3
+    sessions = profile == "simulator" or rng.random() < 0.4
     if rng.random() < 0.5:
         n = min(n, max(8, maxlen // 4))
     nid = [0]
@@ -620,14 +653,21 @@ def gen_one(rng, maxlen, profile=None, nq=None):
     for _ in range(nq):
         g0 = QGen(rng, profile, span, neg, nid, None, dt)
         g0.custom = custom
+        g0.sessions = sessions
         init = None
         if rng.random() < 0.6:
-            init = [g0.fresh() for _ in range(rng.choice([0, 1, 2, 5, 12, 30]))]
+            init = []
+            for _ in range(rng.choice([0, 1, 2, 5, 12, 30])):
+                t = g0.fresh()
+                g0.pending[t[2]] = t          # so that later init events can pair up with earlier ones
+                init.append(t)
         inits.append(init)
         gens.append(QGen(rng, profile, span, neg, nid, init, dt))
+        gens[-1].known = g0.known
     for g in gens:
         g.others = [h for h in gens if h is not g]
         g.custom = custom
+        g.sessions = sessions
     run = Multi(inits)
     ops = []
     qi = 0
@@ -649,6 +689,9 @@ def gen_one(rng, maxlen, profile=None, nq=None):
             for o in res[1]:
                 if o[3] == "Plugin" and rng.random() < 0.8:
                     op2 = ["add", g.clock + rng.randint(0, min(span, 1000)), "Unplug", nid[0]]
+                    src = next((h.known[o[2]] for h in gens if o[2] in h.known), None)
+                    if src is not None and "ev" in _extras(src)[1]:
+                        op2.append({"ev": _extras(src)[1]["ev"]})      # the unplug of the SAME ev
                     nid[0] += 1
                     res2 = run.apply(qi, op2)
                     ops.append([qi, op2])
@@ -699,6 +742,10 @@ CORPUS = [
     _q0([[3, "Plugin", 0, {"p": 25}], [3, "Recompute", 1], [3, "Unplug", 2, {"p": 12, "ty": "Maintenance"}],
          [3, "Recompute", 3, {"p": -1, "ty": ""}], [3, "Base", 4, {"p": 15}], [3, "Plugin", 5]],
         [["json"], ["get"], ["get"], ["json", "buf"], ["get"], ["cur", 3]]),
+    # both events of one session (one EV object) pending together at one timestamp, plug-in inserted first
+    _q0([[5, "Plugin", 0, {"ev": 7}], [5, "Unplug", 1, {"ev": 7}]], [["get"], ["get"]]),
+    _q0(None, [["add", 2, "Plugin", 0, {"ev": 1}], ["add", 2, "Recompute", 1], ["add", 2, "Unplug", 2, {"ev": 1}],
+               ["json"], ["add", 2, "Unplug", 3, {"ev": 4}], ["add", 2, "Plugin", 4, {"ev": 4}], ["cur", 2]]),
     # three queues, one of them restored from JSON in between
     ([None, [[5, "Plugin", 0]], None],
      [[0, ["add", 1, "Recompute", 1]], [2, ["add", 1, "Unplug", 2]], [0, ["cur", 1]], [1, ["json"]], [2, ["cur", 1]],
